@@ -10,6 +10,7 @@ from .execu import Executor, Path, Obligation, Unsupported, STATS
 from .builtins_lib import Lib
 from .contracts import CONTRACTS, REC_OF_CLASS, HEAPCLASSES, LEMMAS, SPECS
 from .spec import Ctx
+from .solve import check as hard_check
 
 
 class Result:
@@ -38,8 +39,9 @@ def _has_quantifier(e, _cache={}):
     return r
 
 
-def discharge(ob, timeout_ms):
-    """negated obligation: unsat = discharged, sat = refuted (with model), unknown = undecided"""
+def discharge(ob, timeout_ms, _phase=0):
+    """negated obligation: unsat = discharged, sat = refuted (with model), unknown = undecided.
+    Order of attempts: all hypotheses; hypothesis slices; then the seed portfolio (phase 1)"""
     g = z3.simplify(ob.goal)
     t0 = time.time()
     if z3.is_true(g):
@@ -47,7 +49,7 @@ def discharge(ob, timeout_ms):
     # portfolio over solver seeds: sequence obligations are sensitive to the search order, a proof
     # (unsat) or a model (sat) under any seed is a verdict
     reason = ''
-    for seed in (0, 2, 3, 5):
+    for seed in ((0,) if _phase == 0 else (2, 3, 5)):
         s = z3.Solver()
         s.set('timeout', timeout_ms)
         if seed:
@@ -55,26 +57,81 @@ def discharge(ob, timeout_ms):
         for c in ob.pc:
             s.add(c)
         s.add(z3.Not(ob.goal))
-        r = s.check()
+        r = hard_check(s, timeout_ms)
         dt = time.time() - t0
         if r == z3.unsat:
             return Result(ob, 'discharged', dt, 'z3' if seed == 0 else f'z3-seed{seed}')
         if r == z3.sat:
             return Result(ob, 'refuted', dt, 'z3', model=s.model())
         reason = s.reason_unknown()
-    # undecided with all hypotheses: retry from fewer (the goal alone, then the quantifier-free part
-    # of the path condition); a proof from fewer hypotheses is still a proof
-    for subset, budget in ((None, 2000), ('qf', timeout_ms // 2)):
+    if _phase == 1:
+        return Result(ob, 'unknown', time.time() - t0, 'z3', reason=reason)
+    # undecided with all hypotheses: retry from fewer (the goal alone, the hypotheses that share symbols
+    # with the goal, the quantifier-free part); a proof from fewer hypotheses is still a proof
+    attempts = [([], 2000)]
+    for rounds in (1, 2, 3):
+        attempts.append((_slice(ob.pc, ob.goal, rounds), timeout_ms))
+    attempts.append(([c for c in ob.pc if not _has_quantifier(c)], timeout_ms // 2))
+    seen_sizes = set()
+    for hyps, budget in attempts:
+        if len(hyps) in seen_sizes or len(hyps) == len(ob.pc):
+            continue
+        seen_sizes.add(len(hyps))
         s0 = z3.Solver()
         s0.set('timeout', budget)
-        if subset == 'qf':
-            for c in ob.pc:
-                if not _has_quantifier(c):
-                    s0.add(c)
+        for c in hyps:
+            s0.add(c)
         s0.add(z3.Not(ob.goal))
-        if s0.check() == z3.unsat:
+        if hard_check(s0, budget) == z3.unsat:
             return Result(ob, 'discharged', time.time() - t0, 'z3-subset')
+    if _phase == 0:
+        r2 = discharge(ob, timeout_ms, _phase=1)
+        r2.time_s = time.time() - t0
+        return r2
     return Result(ob, 'unknown', time.time() - t0, 'z3', reason=reason)
+
+
+def _symbols(e, _cache={}):
+    k = e.get_id()
+    if k in _cache:
+        return _cache[k]
+    out = set()
+    todo = [e]
+    seen = set()
+    while todo:
+        x = todo.pop()
+        i = x.get_id()
+        if i in seen:
+            continue
+        seen.add(i)
+        if z3.is_quantifier(x):
+            todo.append(x.body())
+            continue
+        if z3.is_app(x):
+            if x.decl().kind() == z3.Z3_OP_UNINTERPRETED:
+                out.add(x.decl().name())
+            todo.extend(x.children())
+    _cache[k] = out
+    return out
+
+
+def _slice(pc, goal, rounds):
+    """hypotheses connected to the goal through shared uninterpreted symbols within `rounds` steps"""
+    syms = set(_symbols(goal))
+    chosen = set()
+    for _ in range(rounds):
+        grew = False
+        for i, c in enumerate(pc):
+            if i in chosen:
+                continue
+            sc = _symbols(c)
+            if sc & syms:
+                chosen.add(i)
+                syms |= sc
+                grew = True
+        if not grew:
+            break
+    return [pc[i] for i in sorted(chosen)]
 
 
 class FunctionVerifier:
@@ -179,6 +236,11 @@ class FunctionVerifier:
                     selfv = o.p.env[fi.node.args.args[0].arg]
                     v = ex.finish_partial(selfv) if isinstance(selfv, VPartial) else selfv
                 elif c.returns is not None:
+                    if isinstance(v, VOpt) and c.returns.kind != 'opt':
+                        # an Optional returned where the contract promises a value
+                        ex.oblige(o.p, z3.Not(v.isnone), f'{fshort}/returns-not-None', c.props, 'ensures', fi.node.lineno)
+                        o.p.add(z3.Not(v.isnone))
+                        v = v.val
                     try:
                         v = from_z3(to_z3(v, c.returns), c.returns)
                     except VError as e:
@@ -186,6 +248,8 @@ class FunctionVerifier:
                 env = dict(entry.env)
                 env['result'] = v
                 ctx = ex.ctx(o.p, env)
+                for src in getattr(c, 'exit_reveal', []) or []:
+                    ex.spec.ev(ast.parse(f'reveal({src})', mode='eval').body, ctx)
                 goals = [(cl, ex.spec.bool(cl.ast, ctx)) for cl in c.ensures]
                 for cl, goal in goals:
                     ex.oblige(o.p, goal, f'{fshort}/{cl.name}', cl.props, 'ensures', fi.node.lineno)
@@ -260,6 +324,9 @@ class FunctionVerifier:
             goal = z3.And(parts)
             name = f'{fshort}/raises:{exc.cls}+'
         ex.oblige(o.p, goal, name, props or c.props, 'raises', None)
+        for n_e, src in enumerate(getattr(c, 'exc_ensures', []) or []):
+            g = ex.spec.bool(ast.parse(src, mode='eval').body, ctx)
+            ex.oblige(o.p, g, f'{fshort}/exc_ensures[{n_e}]', c.props, 'ensures', None)
 
 
 def run_function(repo, fq, receiver=None, timeout_ms=10000):
